@@ -26,6 +26,10 @@ from .util_dpflow import (
     strip_wrappers,
     pat_ident,
     contains,
+    SeedTaint,
+    strip_try,
+    _tail_expr,
+    _closures,
 )
 
 LEVEL = "other"
@@ -265,16 +269,6 @@ def v2(rep, src):
     return sites
 
 
-def _closures(body):
-    out = []
-    for n in walk(body):
-        if n["k"] in ("mcall", "call"):
-            for a in n["args"]:
-                if a["k"] == "closure":
-                    out.append((a, n))
-    return out
-
-
 def _full_chain(body, owner):
     """The maximal method chain that contains `owner` (walk up through receivers)."""
     top = owner
@@ -287,12 +281,6 @@ def _full_chain(body, owner):
                 changed = True
                 break
     return chain_root(top)
-
-
-def strip_try(e):
-    while e["k"] == "try":
-        e = e["e"]
-    return e
 
 
 def _len_guarded(what, guards, env):
@@ -476,24 +464,26 @@ def _v3a(rep, src, validated, ok_struct_roots):
         rep.violation("V3", key, "the aggregation share `%r` is not (1 - %s) (nor 1 guarded by a no-op key release)" % (t, S), where_f)
 
 
-class SeedTaint(Taint):
-    """Taint whose single source is an expression node (the value of a call) instead of a name."""
-
-    def __init__(self, seed, label):
-        Taint.__init__(self, {})
-        self.seed, self.label = seed, label
-
-    def eval(self, e):
-        r = Taint.eval(self, e)
-        if e is not None and isinstance(e, dict) and contains(e, self.seed):
-            r = set(r) | {self.label}
-        return r
-
-
-def _tail_expr(body):
-    st = body["stmts"]
-    if st and st[-1]["k"] == "expr" and not st[-1].get("semi"):
-        return st[-1]["e"]
+def _budget_slots(t):
+    """epsilon / delta expressions of a `DpAggregatesParameters::new(e, d, ..)` call or of a struct literal
+    `DpAggregatesParameters { epsilon: e, delta: d, ..self }` (None for a field carried over by `..self`)."""
+    if t is None:
+        return None
+    if is_call_to(t, "DpAggregatesParameters::new") and len(t["args"]) >= 2:
+        return {"epsilon": t["args"][0], "delta": t["args"][1]}
+    if t["k"] == "struct" and t["path"]["segs"][-1:] == ["DpAggregatesParameters"]:
+        fields = {fl["name"]: fl["e"] for fl in t["fields"]}
+        if t.get("rest") is not None and path_of(t["rest"]) != "self":
+            return None
+        out = {}
+        for nm in ("epsilon", "delta"):
+            if nm in fields:
+                out[nm] = fields[nm]
+            elif t.get("rest") is not None:
+                out[nm] = None
+            else:
+                return None
+        return out
     return None
 
 
@@ -536,10 +526,15 @@ def _v3bcd(rep, src):
     env = FnEnv(f)
     p = [pat_ident(x["pat"]) for x in nonself_params(f)]
     t = _tail_expr(f.body)
-    if t is None or not is_call_to(t, "DpAggregatesParameters::new") or len(p) != 1:
-        raise Anchor("split: expected `DpAggregatesParameters::new(..)` as the tail expression and one parameter")
+    slots = _budget_slots(t)
+    if slots is None or len(p) != 1:
+        raise Anchor("split: expected `DpAggregatesParameters::new(..)` or a struct literal as the tail expression and one parameter")
     for i, nm in ((0, "epsilon"), (1, "delta")):
-        tt = norm(t["args"][i], env)
+        if slots[nm] is None:
+            rep.instance("V3", "c:split/%s" % nm, {"slot": nm, "term": "self.%s (carried over by ..self)" % nm})
+            rep.violation("V3", "DpAggregatesParameters::split@%s" % nm, "%s is carried over unchanged by `..self`: it is not divided by the number of parts" % nm, "src/%s:%d" % (f.file, t["l"]))
+            continue
+        tt = norm(slots[nm], env)
         rep.instance("V3", "c:split/%s" % nm, {"slot": nm, "term": repr(tt)})
         if not (tt.is_prod() and tt.num <= 1.0 and tt.atoms == ("self.%s" % nm,) and tt.divs == ("max1:%s" % p[0],) and not tt.comps):
             rep.violation("V3", "DpAggregatesParameters::split@%s" % nm, "%s after split is `%r`, expected `self.%s / (max(%s, 1) as f64)`" % (nm, tt, nm, p[0]), "src/%s:%d" % (f.file, t["l"]))
